@@ -35,7 +35,7 @@ ASSUMPTIONS = [
 SHARDS = {"quick": 16, "thorough": 16}
 TIMEOUT = {"quick": 900, "thorough": 7200}
 MIN_CASES = {"quick": 4000, "thorough": 80000}
-REQUIRED_COUNTERS = ["events_sent", "listener_logs_checked", "reconnects_checked", "resubscriptions_verified", "raising_listener_isolated", "polling_fallback_histories", "connection_back_events"]
+REQUIRED_COUNTERS = ["events_sent", "listener_logs_checked", "reconnects_checked", "resubscriptions_verified", "raising_listener_isolated", "polling_fallback_histories", "connection_back_events", "reads_with_complete_and_partial_frame"]
 
 ALPHABET = "abcuvlxrDSZOetpfmnjq"
 SUB_A = [(1, 9), (1, 10)]
@@ -198,11 +198,28 @@ class History:
                     self.sent.append((self.step, exp))
                 conn.transport.write(wire)
             elif a == "p":
-                msg, exp = self.event_for([self.pick_key()])
-                wire = conn.wire(msg)
-                cuts = sorted(self.rng.sample(range(1, len(wire)), 2))
-                await conn.send_pieces(wire, cuts)
-                self.sent.append((self.step, exp))
+                # events split across reads; half the time a read carries COMPLETE frame(s) followed by the beginning of the
+                # next frame (several events, or one event in 16-byte frames, cut strictly inside a later frame)
+                style = self.rng.randrange(4)
+                if style < 2:
+                    msg, exp = self.event_for([self.pick_key()])
+                    wire = conn.wire(msg, [16] if style == 1 else None)
+                    self.sent.append((self.step, exp))
+                    first = (2 + 16 + 16) if style == 1 else 0
+                else:
+                    wire, first = b"", 0
+                    for _ in range(style):
+                        msg, exp = self.event_for([self.pick_key()])
+                        wire += conn.wire(msg)
+                        first = first or len(wire)
+                        self.sent.append((self.step, exp))
+                cuts = {self.rng.randrange(1, len(wire))}
+                if first and first + 1 < len(wire):
+                    cuts.add(self.rng.randrange(first + 1, len(wire)))
+                    self.ctx.count("reads_with_complete_and_partial_frame")
+                else:
+                    cuts.add(self.rng.randrange(1, len(wire)))
+                await conn.send_pieces(wire, sorted(cuts))
             elif a == "f":
                 msg, exp = self.event_for([self.pick_key()])
                 conn.send(msg, frame_sizes=[16])
